@@ -269,6 +269,8 @@ template <size_t L> struct X {
       State s(reinterpret_cast<const char*>(&fs), SZ);
       if (s != cur) ++changed;
       if (fs.mLength == L) ++hit_capacity;
+      { static std::set<std::pair<const char*, int>> seen; int cls = (s != cur ? 1 : 0) + (fs.mLength == L ? 2 : 0);
+        if (seen.insert({opname, cls}).second) vf::outcome(std::string(opname) + (cls & 1 ? " changes" : " keeps") + " the content" + (cls & 2 ? ", string full" : "")); }
       if (!seeds_only && index.find(s) == index.end()) { index.emplace(s, states.size()); states.push_back(s); }      // seeds-only (capacity 255/256): successors are checked, not stored
    }
    // after a mutator. indom: the std::string counterpart is defined; refop applies it to the reference
